@@ -38,8 +38,12 @@ META = {
             "from below K; tips below / at / above K+ki+1) beats an equally long chain without endorsement and one whose "
             "only endorsement for K was published later in VBK, in both directions of comparePopScore (strictness "
             "decided by the fork resolution table the library reports).",
-    "note": "Trusted: as C04. The stateless part (C05) and payouts (C14) are observed only. _partial in the sense that "
-            "'counts in fork resolution and payouts' is checked on the implementation, not proved here.",
+    "note": "Trusted: as C04. The stateless part (C05) and payouts (C14) are observed only. 'Counts in fork resolution' is "
+            "proved for the comparator as coded (C19_endorsement_counts_in_comparator, _vbk_and_alt_params: one compared "
+            "keystone, published vs never published, both argument orders, on the C03 model of comparePopScoreImpl) and "
+            "observed end to end on the ALT tree only; that an accepted VTB reaches the VBK tree's publication view is "
+            "not modelled and the VBK-side comparator has no end-to-end oracle here. 'Counts in payouts' is checked on "
+            "the implementation, not proved here.",
     "technique": "Coq proof + extraction-based differential correspondence + always-accept oracle with abort handler",
 }
 
